@@ -21,7 +21,7 @@
    critical trait, a failed request returns its error.
    The role status/state folds are those of RoleTree.v (property C11).
    Definitions only; lemmas live in proofs/TaskCmd_proofs.v. *)
-From Verif Require Import Common RoleTree.
+From Verif Require Import Common RoleTree Gen_FilteredPure.
 Open Scope N_scope.
 
 (* ------------------------------------------------------------------ *)
@@ -137,12 +137,25 @@ Definition consolidate (rs : list (bool * bool)) : consolidated :=
 
 Inductive cres := ROk | RErrNil | RErrSingle | RErrCritical.
 
+(* The multi-response branch of configureTasks / transitionTasks looks every answering task up in
+   the task manager's roster (m.GetTask) and counts the error of a task it does not find as
+   non-critical.  The tasks of a live environment stay in the roster only as long as the roster's
+   filters (KillTasks of another environment, HandleExecutorFailed / HandleAgentFailed, Cleanup,
+   acquireTasks), which hand the roster's own slice to Tasks.Filtered, do not write through it:
+   [roster_intact] is computed from the probe of the running Tasks.Filtered that h02 -gen makes on
+   every run (gen/Gen_FilteredPure.v).  When the probe does not say so a critical task may be
+   missing from the roster and nothing is promised about the classification: every error is
+   modelled as tolerated. *)
+Definition roster_intact : bool :=
+  N.ltb 0 filtered_probe_cases && N.eqb filtered_receiver_changed 0 &&
+  N.eqb filtered_wrong_result 0 && N.eqb filtered_aliases_receiver 0.
+
 (* configureTasks / transitionTasks after the response came back *)
 Definition classify (c : consolidated) : cres :=
   match c with
   | CNone => RErrNil
   | CSingle r => if fst r && snd r then RErrSingle else ROk
-  | CMulti rs => if existsb (fun r => fst r && snd r) rs then RErrCritical else ROk
+  | CMulti rs => if roster_intact && existsb (fun r => fst r && snd r) rs then RErrCritical else ROk
   end.
 
 (* no target: transitionTasks returns at once (the CONFIGURE body sends nothing and waits for
